@@ -106,6 +106,7 @@ def entity_lines(i, e, nd, marks, stmt, closer, ind="  ", meta=False):
     return out
 
 
+RENDER_EXTRA = {}       # further files of the last rendering (include files)
 RENDER_METAS = []      # (locator, author value) of the entities whose documentation starts with a metadata line (last rendering)
 
 
@@ -115,9 +116,13 @@ def render_routing(ents, ctx, marks, head=0):
     lines, expect = [], []
     metas = RENDER_METAS
     metas.clear()
+    RENDER_EXTRA.clear()
     nd = head
     D = marks["docmark"]
-    hd = lambda ind: [f"{ind}!{D} {text(0)}"] if head else []
+    # the container's own documentation also defines a footnote, an abbreviation and a reference-style link: definitions of one
+    # comment must not reach the rendered documentation of any other entity
+    hd = lambda ind: [f"{ind}!{D} {text(0)} see[^1] and ABBRX and [the manual][refx]", f"{ind}!{D}", f"{ind}!{D} [^1]: wfootx",
+                      f"{ind}!{D}", f"{ind}!{D} *[ABBRX]: wabbrx", f"{ind}!{D}", f"{ind}!{D} [refx]: http://example.org/wrefx"] if head else []
     if head:
         lines.append(f"!{D} {text(90)}")
         expect.append((("file", ""), words_of(90)))
@@ -175,6 +180,20 @@ def render_routing(ents, ctx, marks, head=0):
                 metas.append((("component", f"c{i}"), meta_value(nd)))
             nd += n_docs(e["p"])
         lines += ["  end type holder", "end module m"]
+    elif ctx == "include":
+        # the declarations stand in an INCLUDEd file: the nested reader uses the same markers
+        lines += ["module m"] + hd("  ") + ["  implicit none", "  include 'decls.inc'", "end module m"]
+        if head:
+            expect.append((("container", "m"), words_of(0)))
+        inc = []
+        for i, e in enumerate(ents, start=1):
+            stmt = [f"integer :: v{i}", f"real, parameter :: v{i} = 1.0", f"character(len=3), dimension(2) :: v{i}"][i % 3]
+            inc += entity_lines(i, e, nd, marks, stmt, [], meta=bool(head))
+            expect.append((("var", f"v{i}"), expected_words(nd, n_docs(e["p"]))))
+            if head and e["p"] in META_OK:
+                metas.append((("var", f"v{i}"), meta_value(nd)))
+            nd += n_docs(e["p"])
+        RENDER_EXTRA["decls.inc"] = "\n".join(inc) + "\n"
     elif ctx == "args":
         lines += ["subroutine outer(" + ", ".join(f"a{i}" for i in range(1, len(ents) + 1)) + ")"] + hd("  ")
         if head:
@@ -228,7 +247,7 @@ def evaluate_routing(case):
     for ctx in case["ctxs"]:
         if ctx == "procs" and not all(e["kind"] == "block" for e in ents):
             continue
-        if ctx in ("type", "args") and not all(e["kind"] == "simple" for e in ents):
+        if ctx in ("type", "args", "include") and not all(e["kind"] == "simple" for e in ents):
             continue
         for ms in case["marksets"]:
             marks = MARKSETS[ms]
@@ -236,7 +255,7 @@ def evaluate_routing(case):
             head = case.get("head", 0)
             bad = []
             try:
-                p = fordrun.project({"case.f90": text}, **marks)
+                p = fordrun.project(dict({"case.f90": text}, **RENDER_EXTRA), **marks)
                 if not p.files:
                     bad.append("file rejected by FORD")
                 else:
@@ -251,6 +270,22 @@ def evaluate_routing(case):
                         got = doc_words(ent)
                         if got != words:
                             bad.append(f"{loc[0]} {loc[1]}: documentation words {got}, its comments hold {words}")
+                    if head and ctx == "spec":
+                        # rendered documentation: what the module's comment defines stays in the module's documentation
+                        from ford._markdown import MetaMarkdown
+                        md = MetaMarkdown(project=p)
+                        p.markdown(md)
+                        for loc, words in expect:
+                            if loc[0] in ("file", "container"):
+                                continue
+                            ent, _ = find(p, loc)
+                            html = getattr(ent, "doc", "") or ""
+                            leaked = [w for w in ("wfootx", "wabbrx", "wrefx") if w in html]
+                            if leaked:
+                                bad.append(f"{loc[0]} {loc[1]}: its rendered documentation holds {leaked}, which only the module's comment defines")
+                            missing = [w for w in words if w not in html]
+                            if missing:
+                                bad.append(f"{loc[0]} {loc[1]}: words {missing} of its comment are not in its rendered documentation")
                     # a leading metadata line sets the entity's metadata and is not part of its documentation text
                     for loc, val in list(RENDER_METAS):
                         ent, _ = find(p, loc)
@@ -400,7 +435,7 @@ def run(tier, seed, ck: Check):
         routes = [c for c in routes if zlib.crc32(json.dumps(c["ents"], sort_keys=True).encode()) % (len(routes) // 150000 + 1) == 0]
     for c in routes:
         h = zlib.crc32(json.dumps(c["ents"], sort_keys=True).encode())
-        c["ctxs"] = ("spec", "procs", "type", "args")
+        c["ctxs"] = ("spec", "procs", "type", "args", "include")
         c["marksets"] = ("default", "swapped") if big else (("default", "swapped")[h % 2],)
     ck.coverage["routing_cases"] = len(routes)
     ck.coverage["body_cases"] = len(bodies)
